@@ -31,6 +31,27 @@ void harness::run_case(const eng::Raw& raw, eng::Ctx& ctx)
 			n += 1;
 			break;
 		}
+		case 5: if (largeTag.empty()) {
+			// one WIDE rule: a symbol of rank 33..40 over two fresh leaf-only states (one tree each, so the reference stays
+			// linear) with - in most cases - one dead child at a generated position (often beyond the 32nd); the parent is a
+			// fresh state that is final in half of the cases and feeds an existing state in the others
+			const int rank = 33 + static_cast<int>(c.header[5] % 8);
+			const int w = ref::symtab().id("w", rank);
+			const int L1 = n, L2 = n + 1, D = n + 2, P = n + 3;
+			c.A.add(c.syms[0], {}, L1);
+			c.A.add(c.syms[0], {}, L2);
+			std::vector<int> ch;
+			for (int i = 0; i < rank; ++i) ch.push_back((gen::mix(c.header[6], static_cast<uint64_t>(i)) % 2) ? L1 : L2);
+			const int deadPos = static_cast<int>(c.header[6] % static_cast<uint32_t>(rank + 6));
+			if (deadPos < rank) ch[static_cast<size_t>(deadPos)] = D;
+			c.A.add(w, ch, P);
+			if (c.header[5] / 8 % 2) c.A.finals.insert(P);
+			else c.A.add(4 /* g */, {P}, static_cast<int>(c.header[5] / 16 % static_cast<uint32_t>(c.n)));
+			n += 4;
+			ctx.tag(deadPos >= 32 && deadPos < rank ? "wide-rule:dead-child-beyond-position-32" : (deadPos < rank ? "wide-rule:dead-child" : "wide-rule:all-children-productive"));
+			break;
+		}
+		// fall through
 		default: break;
 	}
 	c.n = n;
